@@ -101,7 +101,7 @@ def distribution(lines):
 PROP = {
     "id": "C13",
     "prop_file": "theories/Props/C13.v",
-    "proof_files": [],
+    "proof_files": ["theories/Proofs/ParserClosed.v", "theories/Proofs/ParserProofs.v", "theories/Proofs/LexFacts.v", "theories/Proofs/TypingProofs.v"],
     "gen": gen,
     "compare_spec": False,
     "nontrivial": nontrivial,
